@@ -102,6 +102,54 @@ Example C17_contains_prefix_forms_differ_on_longer_prefix :
   eset_contains_prefix (Unsorted [x]) p = false.
 Proof. exact contains_prefix_forms_differ_on_longer_prefix. Qed.
 
+(* completeness of the search, for any comparator: the loop only asks "Greater?", so on a slice
+   split as (not Greater)* Greater* whose last not-Greater element compares Equal it hits exactly
+   that element; instantiated with the comparator of contains_prefix *)
+Theorem C17_search_complete : forall (A : Type) (f : A -> comparison) d l j,
+  (1 <= j <= length l)%nat ->
+  (forall n, (n < j)%nat -> f (nth n l d) <> Gt) ->
+  (forall n, (j <= n)%nat -> (n < length l)%nat -> f (nth n l d) = Gt) ->
+  f (nth (j - 1) l d) = Eq ->
+  binary_search_by f d l = (true, (j - 1)%nat).
+Proof. exact @binary_search_complete. Qed.
+Print Assumptions C17_search_complete.
+
+Theorem C17_contains_prefix_search_complete : forall p l j,
+  let f := fun c => if (llen p =? 0) || is_prefix_of p (e_label c) then Eq
+                    else bytes_cmp (lval (e_label c)) (lval p) in
+  (1 <= j <= length l)%nat ->
+  (forall n, (n < j)%nat -> f (nth n l dummy_elem) <> Gt) ->
+  (forall n, (j <= n)%nat -> (n < length l)%nat -> f (nth n l dummy_elem) = Gt) ->
+  f (nth (j - 1) l dummy_elem) = Eq ->
+  eset_contains_prefix (BinarySearchable l) p = true.
+Proof. exact contains_prefix_sorted_complete. Qed.
+Print Assumptions C17_contains_prefix_search_complete.
+
+(* its premises on a sorted set: labels 0x10, 0x53, 0x5f, 0x80 (8 bits), prefix 0101 *)
+Example C17_search_complete_hyp_sat :
+  let e b := El (NL (b :: zeros 31) 8) [] in
+  let l := [e 16; e 83; e 95; e 128] in let p := NL (80 :: zeros 31) 4 in
+  let f := fun c => if (llen p =? 0) || is_prefix_of p (e_label c) then Eq
+                    else bytes_cmp (lval (e_label c)) (lval p) in
+  (1 <= 3 <= length l)%nat /\
+  (forall n, (n < 3)%nat -> f (nth n l dummy_elem) <> Gt) /\
+  (forall n, (3 <= n)%nat -> (n < length l)%nat -> f (nth n l dummy_elem) = Gt) /\
+  f (nth (3 - 1) l dummy_elem) = Eq /\ eset_contains_prefix (BinarySearchable l) p = true.
+Proof.
+  cbv zeta. split; [cbn; auto with arith|]. split.
+  - intros n Hn. destruct n as [|[|[|n]]]; [vm_compute; discriminate ..|].
+    exfalso. apply (PeanoNat.Nat.lt_irrefl 3). eapply PeanoNat.Nat.le_lt_trans; [|exact Hn].
+    repeat apply le_n_S. apply le_0_n.
+  - split.
+    + intros n Hn1 Hn2. destruct n as [|[|[|[|n]]]].
+      * inversion Hn1.
+      * inversion Hn1 as [|m Hm]; inversion Hm.
+      * inversion Hn1 as [|m Hm]; inversion Hm as [|m2 Hm2]; inversion Hm2.
+      * vm_compute. reflexivity.
+      * exfalso. cbn [length] in Hn2. do 4 apply PeanoNat.Nat.succ_lt_mono in Hn2. inversion Hn2.
+    + split; vm_compute; reflexivity.
+Qed.
+
 Theorem C17_bits_roundtrip : (forall bs, (length bs <= 256)%nat -> bits_of (nl_of_bits bs) = bs) /\
   (forall a, WF a -> canonical a = true -> nl_of_bits (bits_of a) = a).
 Proof. exact (conj bits_of_nl_of_bits nl_of_bits_bits_of). Qed.
